@@ -25,12 +25,10 @@ import CifModel.Lemmas.ParserStoreRunF
       `C03_add_packet_calls_documented`, `C03_create_calls_documented`: every add_packet / block / frame creation of every parse is
       a SUCCESSFUL call of the documented function in the state in which it is made (`Lemmas/ParserTraceInv.trace_calls_docOk`);
     * `C03_store_step_mkBlock`: for block creation the composition with the store model's API function (through C04_refines_create_block).
-  NOT proved: `C03_parser_store_refines_full` — running the translated history (`storeOps`) through `Store.step` from a new CIF ends
-  with every call CIF_OK in a store whose abstraction `Store.abs` is the parser model's CIF.  It is EXECUTED by the model driver on
-  every request of family `parse` with a fresh target (field `sto=`; any outcome other than `ok` is a disagreement), and three
-  instances are evaluated by the kernel below.  What a proof needs: for set_value / create_loop / add_packet / prune the lift of
-  the container-local refinement lemmas of Props/C04 (`absLoops d cid`) to the tree `Store.abs` at a PATH (unique parents of save
-  frames), the API wrappers' transaction brackets, and the handle tables of `Store.step`.
+  PROVED since group gX: `C03_parser_store_refines : C03_parser_store_refines_full` — running the translated history (`storeOps`)
+  through `Store.step` from a new CIF ends with every call CIF_OK in a store whose abstraction `Store.abs` is the parser model's CIF
+  (below: "the FULL composition").  It is also EXECUTED by the model driver on every request of family `parse` with a target (field
+  `sto=`; any outcome other than `ok` / `skip` is a disagreement).
 -/
 namespace CifModel
 open CifModel.Model CifModel.Model.Lexer CifModel.Model.Parser
@@ -136,8 +134,8 @@ theorem C03_add_packet_calls_documented (o : Opts) (pol : Policy) (pre : Cif) (u
   rw [hs] at this
   cases this
 
-/-- **FULL statement (not proved; executed on every generated input, see the head of the file)**: the calls of a parse into a
-    new CIF, run through the store model, all succeed and build exactly the CIF the parser model returns. -/
+/-- **FULL statement** (proved below: `C03_parser_store_refines`; also executed on every generated input): the calls of a parse into
+    a new CIF, run through the store model, all succeed and build exactly the CIF the parser model returns. -/
 def C03_parser_store_refines_full : Prop :=
   ∀ (o : Opts) (pol : Policy) (units : Str) (ops : List Store.Op),
     storeOps o (storeTrace o pol [] units) = some ops →
